@@ -21,6 +21,7 @@
 import CedarModel.Cancel
 import CedarProofs.CancelLemmas
 import CedarGen.FactsIO
+import CedarGen.FactsNoCtx
 
 namespace Cedar.C19
 open Cedar Cedar.Cancel
@@ -212,7 +213,12 @@ theorem all_io_wrapped :
 /-- the examined exceptions of fact table (d) -/
 def declaredCtxFresh : List (String × String × String × String) := [
   -- demo wrapper, not on any handshake path
-  ("security/auth.go", "PerformTokenAuthenticationDemo", "context.Background()", "")]
+  ("security/auth.go", "PerformTokenAuthenticationDemo", "context.Background()", ""),
+  -- exported pre-context entry points kept for API compatibility (fix F-C19-scitokens-noctx): each only
+  -- forwards to its ...Context variant; the handshake (exchangeSciToken) calls the variant with its own context
+  ("security/scitoken_auth.go", "DiscoverOIDCConfiguration", "context.Background()", ""),
+  ("security/scitoken_auth.go", "FetchJWKS", "context.Background()", ""),
+  ("security/scitoken_auth.go", "VerifySciToken", "context.Background()", "")]
 
 def declaredCtxForeign : List (String × String × String × String) := [
   -- CEDARTLSConnection carries the handshake's own context (stored below) into crypto/tls's Read/Write
@@ -233,6 +239,33 @@ theorem ctx_threaded :
     (∀ x ∈ CedarGen.FactsIO.ctxStored, x ∈ declaredCtxStored) ∧
     (∀ x ∈ declaredCtxStored, x.2.2.2 = "derived") ∧
     (∀ x ∈ declaredCtxForeign, x.2.2.1 = "c.ctx") := by
+  decide
+
+/-- the examined exceptions of the table of blocking calls that take no context.
+    `kerberosClient` asks the KDC for a service ticket through gokrb5, whose client API has no
+    context parameter: a KERBEROS handshake cannot be cancelled during that round trip (bounded by
+    the library's own KDC timeouts). OPEN — recorded here so that it stays visible; it needs a
+    change of dependency or a watchdog goroutine, and Kerberos cannot run in this environment. -/
+def declaredNoCtx : List (String × String × String × String) := [
+  ("security/kerberos_auth.go", "kerberosClient", "cl.GetServiceTicket", "kerberos")]
+
+/-- **no_contextless_blocking** (fact table (e)): `ctx_threaded` vouches for the context ARGUMENTS
+    that exist; this one for the calls that have none. In security/ no function calls a blocking
+    network or timer API that takes no context (`net.Dial*`, `http.Get/Post/...`, `(*http.Client).Get/
+    Post/Head`, `(*http.Client).Do` on a request not built with a context, `tls.Dial`, `time.Sleep`,
+    `exec.Command`, gokrb5 ticket requests) except the declared site. Before fix F-C19-scitokens-noctx
+    the table also held `DiscoverOIDCConfiguration` and `FetchJWKS` (two `client.Get` with 10 s
+    timeouts, reached from the server side of a SCITOKENS handshake through `VerifySciToken`): a
+    stalled token issuer kept a cancelled handshake blocked for up to 20 s. -/
+theorem no_contextless_blocking :
+    ∀ x ∈ CedarGen.FactsNoCtx.blocking, x ∈ declaredNoCtx := by
+  decide
+
+/-- the pre-fix table violates the clause (witness: the OIDC discovery request) -/
+theorem no_contextless_blocking_prefix_fails :
+    ¬ (∀ x ∈ [("security/kerberos_auth.go", "kerberosClient", "cl.GetServiceTicket", "kerberos"),
+              ("security/scitoken_auth.go", "DiscoverOIDCConfiguration", "(*http.Client).Get", "no context"),
+              ("security/scitoken_auth.go", "FetchJWKS", "(*http.Client).Get", "no context")], x ∈ declaredNoCtx) := by
   decide
 
 /-! ### non-vacuity -/
